@@ -876,17 +876,25 @@ def expand_combinators(raw, raws, max_n=40):
             if d0 is not None and d0[0] == 'call':
                 tm = d0[3]
                 fm = (tm['func'].get('fn') or {}) if tm['func'].get('k') == 'const' else {}
-                cg = _closure_of(raw, tm['args'][1]) if fm.get('def') == 'std::iter::Iterator::map' and len(tm['args']) == 2 else None
+                is_map = fm.get('def') == 'std::iter::Iterator::map' and len(tm['args']) == 2
+                cg = _closure_of(raw, tm['args'][1]) if is_map else None
                 if cg is not None and cg in raws and raws[cg]['arg_count'] == 2 and tm['args'][0].get('k') in ('move', 'copy') and tm.get('target') is not None \
                         and raw['blocks'][d0[1]]['cleanup'] == b['cleanup']:
                     fuse = (d0[1], tm, cg)
+                elif is_map and cg is None and tm['args'][1].get('k') == 'const' and (tm['args'][1].get('fn') or {}).get('def') and tm['args'][0].get('k') in ('move', 'copy') \
+                        and tm.get('target') is not None and raw['blocks'][d0[1]]['cleanup'] == b['cleanup']:
+                    fuse = (d0[1], tm, None)        # `.map(Key::as_borrowed)`: a function passed by name
             src = fuse[1]['args'][0] if fuse else args[0]
             if fuse:
                 raw['blocks'][fuse[0]]['term'] = dict(g, k='goto', target=fuse[1]['target'], model='map-fused')
             ity = src['place']['ty']
             it = _new_local(raw, ity)
             b['stmts'].append(_assign(_loc(it, ity), {'k': 'use', 'op': src}, t))
-            item_ty = raws[fuse[2] if fuse else cp]['locals'][2]['ty']
+            if fuse and fuse[2] is None:
+                si = (fuse[1]['args'][1]['fn'].get('sig_inputs') or ['?'])
+                item_ty = si[0] if si and 'Self' not in si[0] else '?'
+            else:
+                item_ty = raws[fuse[2] if fuse else cp]['locals'][2]['ty']
             oty = '%s<%s>' % (OPT, item_ty)
             nxt = _new_local(raw, oty, OPT)
             rty = '&mut ' + ity
@@ -907,7 +915,7 @@ def expand_combinators(raw, raws, max_n=40):
                                              model='for_each')
             item = {'k': 'move', 'place': _field(_loc(nxt, oty), 1, 'Some', OPT, item_ty)}
             if fuse:
-                mty = raws[fuse[2]]['locals'][0]['ty']
+                mty = raws[fuse[2]]['locals'][0]['ty'] if fuse[2] is not None else raws[cp]['locals'][2]['ty']
                 mid = _new_local(raw, mty)
                 body2 = _new_block(raw, [], dict(g, k='unreachable'), b['cleanup'])
                 okf = _apply(raw, raws, body, fuse[1]['args'][1], [item], _loc(mid, mty), body2, uw, t) and \
